@@ -1,7 +1,9 @@
 open Model
 open Fpmodel
-(* effects <initial opts keys: list int> <ops: list (cls pass_opts sup hc solve)>  ->  keys of optimization_options after
-   every step, steps separated by "|"   (key codes: 0 trusted_edges_for_safety, 1 allow_empty_paths, 2 optimize_with_safe_paths,
+(* effects <sw> <has_ext> <initial opts keys: list int> <ops: list (cls pass_opts sup hc solve)>
+     sw = 1: the list-aliasing finding (external_safe_paths) is open -> the summary of the code at 003f186; 0: the list is copied
+   ->  per step "keys of optimization_options ; number of extensions of the external_safe_paths list", steps separated by "|"
+   (key codes: 0 trusted_edges_for_safety, 1 allow_empty_paths, 2 optimize_with_safe_paths,
    3 optimize_with_safe_sequences, 4 optimize_with_safe_zero_edges, 5 optimize_with_subpath_constraints_as_safe_sequences,
    6 optimize_with_safety_as_subpath_constraints, 100+n user key n) *)
 let cls_of_int = function
@@ -14,13 +16,16 @@ let key_of_int i = match i with 0 -> KTrusted | 1 -> KAllowEmpty | 2 -> KSafePat
 let int_of_key = function KTrusted -> 0 | KAllowEmpty -> 1 | KSafePaths -> 2 | KSafeSeq -> 3 | KSafeZero -> 4
   | KSubAsSafe -> 5 | KSafetyAsSub -> 6 | KUser n -> 100 + int_of_nat n
 let () = register "effects" (fun () ->
+  let sw = next_bool () in let has_ext = next_bool () in
   let d = next_list (fun () -> key_of_int (next ())) in
   let ops = next_list (fun () ->
     let c = cls_of_int (next ()) in let p = next_bool () in let s = next_bool () in let hc = next_bool () in
     let sv = next_bool () in { o_cls = c; o_pass_opts = p; o_sup = s; o_hc = hc; o_solve = sv }) in
-  let h0 = { h_graph = []; h_opts = d; h_sopts = []; h_cons = []; h_ign = []; h_starts = []; h_ends = []; h_defaults = [] } in
+  let h0 = { h_graph = []; h_opts = d; h_has_ext = has_ext; h_ext = []; h_sopts = []; h_cons = []; h_ign = []; h_starts = [];
+             h_ends = []; h_defaults = [] } in
   let rec go h acc = function
     | [] -> List.rev acc
-    | o :: r -> let h' = run [o] h in
-      go h' (String.concat " " (List.map (fun k -> string_of_int (int_of_key k)) (h_opts h')) :: acc) r in
+    | o :: r -> let h' = run_sw sw [o] h in
+      go h' ((String.concat " " (List.map (fun k -> string_of_int (int_of_key k)) (h_opts h')) ^ " ; " ^
+              string_of_int (List.length (h_ext h'))) :: acc) r in
   print_endline ("OK " ^ String.concat " | " (go h0 [] ops)))
